@@ -129,6 +129,8 @@ def image_of(b, i):
 def run(case, ctx):
     m = M.Machine(case["w"], case["h"], dead=[tuple(d) for d in case["dead"]],
                   buffer_size=case["buf"])
+    if (case["buf"] // 4 + case["w"]) % 2:
+        m.diversify(case["app_id"])
     app_id = case["app_id"]
     images = [image_of(b, i) for i, b in enumerate(case["bins"])]
     requested = {}          # (xy, core) -> binary index
@@ -203,7 +205,7 @@ def run(case, ctx):
     loaded = set()          # requested cores holding their binary so far
     any_miss = False
     last_pid = None
-    sdram_sys = M.SDRAM_SYS
+    sdram_sys = m.chips[m.root].sdram_sys
     for f in m.fills:
         ctx.hit("fill_wellformed")
         where = dict(fill=m.fills.index(f), order=f["order"][:12], **opts)
